@@ -56,6 +56,7 @@ def generate(seed, index, tier):
     cfg['ops']['ChangeMeta'] = 6
     cfg['index_conditions'] = True
     cfg['q_wrap'] = rng.random() < 0.5
+    cfg['q_conn1'] = rng.random() < 0.5
     cfg['expressions'] = rng.random() < 0.5
     cfg['deferrable'] = rng.random() < 0.5
     if rng.random() < 0.8:
